@@ -14,6 +14,30 @@ TABLE = {
          'bounded exhaustive enumeration of input structure (all vector pairs over a value alphabet, all sigma_k forms, stack shapes, condition permutations) on the real compare(), judged by a reference model',
          'Every pair of RDM vectors over {0,1,2}^3, {0,1}^6 ({0,1,2}^6 thorough) and {-1,0,1,2}^3 - i.e. every tie/zero/sign pattern - is run through the real compare() in batched stacks for every measure and every sigma_k form and each (i,j) entry is compared with an independent definition; algebraic laws (symmetry, self-similarity, range, invariance under all n! condition permutations, ndarray==RDMs, vector==diagonal sigma_k) are checked on generic fills. Exhaustive over structure within the bounds, finite alphabet over values.',
          'reference definitions in mc/ref/measures.py; numpy/scipy; real values only through the alphabets and fixed fills', '4/C03'),
+ 'C04': ('model_checking',
+         'stateless choice-point exploration (prefix replay, deviation-bounded / complete) of every numpy.random draw inside the real evaluation routines, oracle computed from the recorded resamples and folds',
+         'Every outcome of the first resample\'s draws (3 RDMs x 4 conditions: all 6912) and every execution with <= 1 (thorough 2-3) deviations from the identity draw elsewhere is executed on the real eval_fixed / eval_bootstrap* / crossval / bootstrap_crossval / eval_dual_bootstrap* code; the resample and fold constructors seen by the routines are wrapped by recorders, and every stored evaluation, noise ceiling, covariance, NaN mark and dof is recomputed from that observed history with an independent reference (prediction restricted to the recorded conditions with multiplicity, reference similarity, reference pooling). Exit 2 (binding lost) if a routine draws without the recorders seeing it.',
+         'recorded sample/fold objects are what the routine evaluated on (faithfulness of those objects is C09/C05); randomness only through numpy.random.randint/shuffle (tripwires otherwise); N=2-3 resamples', '4/C04'),
+ 'C05': ('model_checking',
+         'choice-point exploration of every numpy.random.shuffle outcome of the real fold generators over all set-partition groupings, plus exhaustive single-entry perturbation (bit-identity) of crossval()',
+         'All eight fold generators are run on self-describing RDMs for every grouping of RDMs / conditions by a descriptor (all set partitions within the size bound, incl. objects holding bootstrap copies), every k / group size and every outcome of their shuffles (complete when the product is small, else deviation-bounded); each execution is judged by the fold invariants (disjoint groups, groups kept whole, exact partition with sizes differing by <= 1, advertised content, ceil set = training RDMs at test conditions). Leakage: for every configuration and shuffle history every test-only entry is perturbed and the fitted theta must be bit-identical; every train-only entry is perturbed under a stub fitter and the fold score must be bit-identical.',
+         'group = items sharing a descriptor value; randomness only through numpy.random.shuffle; leakage decided by bit-identity under single-entry perturbation', '4/C05'),
+ 'C09': ('model_checking',
+         'complete stateless enumeration (prefix replay) of every numpy.random.randint outcome of the real bootstrap samplers, judged against a list-of-ids model; exact uniformity by counting',
+         'For every configuration (routine, up to 3x4 / thorough 4x5, grouping descriptors unique/repeated/str/int, list/ndarray) EVERY outcome of every draw is executed on the real bootstrap_sample / _rdm / _pattern with self-describing values; each execution: draw request = (#groups, with replacement), returned indices name exactly the drawn groups, sample = exactly their RDMs/conditions with multiplicity and all descriptors, every entry = source value of its own labels, NaN iff two copies of one condition, prediction resampled with the returned indices has the same condition order; over the complete enumeration every RDM/condition occurs equally often (exact).',
+         'randomness only through numpy.random.randint (tripwires otherwise); self-describing values', '4/C09'),
+ 'C10': ('model_checking',
+         'explicit-state breadth-first search over operation histories of real RDMs objects with a lock-step list-of-ids model and a history-free state invariant (self-describing values)',
+         'From 16 initial RDMs objects all sequences up to depth 3 (thorough 4) of the C10 operation alphabet (indexing, iteration, subset/subsample of RDMs and conditions, reorder, sort_by, append, concat variants, copy, vector/matrix rebuild, dict round trip, to_df, permute/inverse, from_partials) with state-derived argument menus are executed on the real objects; every produced object must satisfy: each entry equals the code of its own (rid, cid, cid) labels, NaN exactly for copies / absent pairs, every descriptor is its function of the id, exactly the ids the model predicts are present; in-place operations change only the receiver; n_cond recovery from vector length for every n in 1..5000.',
+         'state key (id orders, NaN mask, descriptor container/element types) determines futures; inadmissible calls not generated', '4/C10'),
+ 'C11': ('model_checking',
+         'explicit-state breadth-first search over operation histories of real Dataset / TemporalDataset objects with an id-list model and a history-free state invariant (self-describing measurements)',
+         'From 26 initial datasets (incl. size-1 dimensions and 40-row objects for sort stability) all sequences up to depth 3 (thorough 4) of split/subset by obs/channel/time, sort_by, merge, odd-even splits, bin_time (every partition of the time points), time_as_observations/channels, DataFrame round trip, copy, per-condition averages and tensors are executed; every produced object: each cell equals 100*obs+10*channel+time of its own labels, descriptors are functions of ids, rows/columns/times are exactly those the model predicts in the predicted order, splits partition, merge(split) restores the multiset, sort is the stable permutation, bin values are bin means.',
+         'state key determines futures; inadmissible calls (empty selections, constant descriptors for from_df, bin_time with extra per-time descriptors) not generated', '4/C11'),
+ 'C12': ('model_checking',
+         'depth-2 exhaustive exploration of (producer, in-place mutator, direction) over an alphabet of public callables discovered by introspection, judged by field-wise bit-level fingerprints',
+         'Every public function / method of rsatoolbox.rdm, .data, .model, .inference, .util, .simulation found by introspection at run time and for which arguments can be synthesised (uncovered ones are listed in the evidence) is run on 4 argument variants; arguments must be bit-identical afterwards; then every applicable mutator (reorder, sort_by, append, dataset sort_by, array write) is applied to the result (sources must keep their fingerprint) and to each source (result must keep its fingerprint).',
+         'accessors/normalisers that return the stored representation and container constructors are judged for non-modification only; index descriptors excluded', '4/C12'),
 }
 
 ENGINES = [
